@@ -64,6 +64,8 @@ thread_local! {
     static DOUBLE_DROP: Cell<u64> = const { Cell::new(0) };
     /// 0 = disarmed; n = the n-th destructor of a tracked value from now panics.
     static DROP_COUNTDOWN: Cell<u64> = const { Cell::new(0) };
+    /// 0 = disarmed; n = the n-th `clone` of a tracked value from now panics.
+    static CLONE_COUNTDOWN: Cell<u64> = const { Cell::new(0) };
 }
 
 fn cb(kind: Cb) {
@@ -149,8 +151,92 @@ impl V {
 }
 impl Clone for V {
     fn clone(&self) -> V {
+        let fire = CLONE_COUNTDOWN.with(|c| {
+            let n = c.get();
+            if n == 0 {
+                false
+            } else {
+                c.set(n - 1);
+                n == 1
+            }
+        });
+        if fire {
+            FIRED.with(|f| f.set(true));
+            panic!("injected panic in clone");
+        }
         V::new(self.val)
     }
+}
+
+/// Fault kind "a `clone` of a value panics" (n-th call) inside `Vec2::clone`, `SmallMap::clone`
+/// and `Vec2::extend` fed by a cloning iterator: the source must be untouched, the partial copy
+/// must go away without dropping anything twice, and an interrupted `extend` must hold the old
+/// entries plus a prefix of the new ones.
+fn clone_faults(model: &[(i64, u32)], rng: &mut Rng, o: &mut Outcome, step: usize) -> Res {
+    let total = model.len();
+    if total == 0 {
+        return Ok(());
+    }
+    let which = rng.below(3);
+    let nth = 1 + rng.below(2 * total as u64);
+    let armed = |f: &mut dyn FnMut()| -> bool {
+        FIRED.with(|f| f.set(false));
+        CLONE_COUNTDOWN.with(|c| c.set(nth));
+        let r = catch_unwind(AssertUnwindSafe(f));
+        CLONE_COUNTDOWN.with(|c| c.set(0));
+        if r.is_err() {
+            let _ = take_last_panic();
+        }
+        r.is_err()
+    };
+    let live = |serial: u64| LIVE.with(|s| s.borrow().contains(&serial));
+    DOUBLE_DROP.with(|d| d.set(0));
+    let mut w: Vec2<V, V> = Vec2::new();
+    let mut m: SmallMap<K, V> = SmallMap::new();
+    for (i, (a, b)) in model.iter().enumerate() {
+        w.push(V::new(*a), V::new(*b as i64));
+        m.insert(key(2, i as u32), V::new(*a));
+    }
+    let want: Vec<(i64, i64)> = model.iter().map(|(a, b)| (*a, *b as i64)).collect();
+    let panicked = match which {
+        0 => armed(&mut || {
+            let c = w.clone();
+            drop(c);
+        }),
+        1 => armed(&mut || {
+            let c = m.clone();
+            drop(c);
+        }),
+        _ => {
+            let src: Vec<(V, V)> = model.iter().map(|(a, b)| (V::new(*a + 1000), V::new(*b as i64))).collect();
+            let p = armed(&mut || w.extend(src.iter().map(|(x, y)| (x.clone(), y.clone()))));
+            let got: Vec<(i64, i64)> = w.iter().map(|(x, y)| (x.val, y.val)).collect();
+            let full: Vec<(i64, i64)> = want.iter().copied().chain(model.iter().map(|(a, b)| (*a + 1000, *b as i64))).collect();
+            if got.len() < want.len() || got.len() > full.len() || got[..] != full[..got.len()] || (!p && got != full) {
+                return Err(format!("step {step}: after a panic in the {nth}-th clone inside Vec2::extend the container holds {got:?}, old content {want:?}"));
+            }
+            w.truncate(total);
+            p
+        }
+    };
+    if panicked {
+        o.bump("fault.panic_in_clone", 1);
+    }
+    let wv: Vec<(i64, i64)> = w.iter().map(|(x, y)| (x.val, y.val)).collect();
+    if wv != want || w.iter().any(|(x, y)| !live(x.serial) || !live(y.serial)) {
+        return Err(format!("step {step}: after a panic in the {nth}-th clone (scenario {which}) the source Vec2 holds {wv:?} instead of {want:?}, or holds dropped values"));
+    }
+    let mv: Vec<i64> = m.values().map(|v| v.val).collect();
+    if mv != model.iter().map(|x| x.0).collect::<Vec<_>>() || m.values().any(|v| !live(v.serial)) {
+        return Err(format!("step {step}: after a panic in the {nth}-th clone (scenario {which}) the source SmallMap changed"));
+    }
+    drop(w);
+    drop(m);
+    let dd = DOUBLE_DROP.with(|d| d.replace(0));
+    if dd > 0 {
+        return Err(format!("step {step}: after a panic in a clone (scenario {which}, {nth}-th call) {dd} value(s) dropped twice"));
+    }
+    Ok(())
 }
 impl PartialEq for V {
     fn eq(&self, o: &V) -> bool {
@@ -1491,6 +1577,7 @@ fn run_other(kind: &str, mode: u64, seed: u64, n: usize, o: &mut Outcome) -> Res
                             model.clear();
                         }
                         1..=4 => destructor_faults(&model, &mut rng, o, step)?,
+                        5 | 6 => clone_faults(&model, &mut rng, o, step)?,
                         _ => {}
                     },
                 }
@@ -1608,7 +1695,7 @@ impl World for C11 {
     fn describe(&self) -> Describe {
         Describe {
             level: "exploration",
-            rule: "three kinds of run: (a) exhaustive = for base SmallMaps of 15, 16, 17 and 18 entries (around the 16-entry index threshold), hash modes {all-equal, sequential} and every 2-operation prefix, ALL operation sequences of length <= 2 (quick) or <= 3 (thorough) over an 20-letter alphabet (insert/remove/or_insert_with on present and absent keys, remove by index, pop, retain, sort, reverse, drop-index, clear, extend) - complete enumeration of histories up to length 4 resp. 5; (b) random SmallMap histories of up to 220 operations over <= 48 keys with adversarial hashes, through the plain and the pre-hashed API, with a panic injected into Hash/Eq/Ord/closure callbacks at the n-th call inside ~1 in 9 operations; (c) histories over SmallSet, OrderedMap/Set, SortedMap/Set/Vec, UnorderedMap/Set and Vec2 (with panics in retain/sort_by closures, and with the n-th destructor call panicking inside clear / truncate / retain of a Vec2 and inside SmallMap::clear, compared with the same operation on a plain Vec of pairs). After every step every lookup by key, by index and by position for every key of the universe is compared with a Vec model; non-trivial = history with >= 1 removal/sort/retain on an indexed map or an injected panic; distinct = digest of the operation list",
+            rule: "three kinds of run: (a) exhaustive = for base SmallMaps of 15, 16, 17 and 18 entries (around the 16-entry index threshold), hash modes {all-equal, sequential} and every 2-operation prefix, ALL operation sequences of length <= 2 (quick) or <= 3 (thorough) over an 20-letter alphabet (insert/remove/or_insert_with on present and absent keys, remove by index, pop, retain, sort, reverse, drop-index, clear, extend) - complete enumeration of histories up to length 4 resp. 5; (b) random SmallMap histories of up to 220 operations over <= 48 keys with adversarial hashes, through the plain and the pre-hashed API, with a panic injected into Hash/Eq/Ord/closure callbacks at the n-th call inside ~1 in 9 operations; (c) histories over SmallSet, OrderedMap/Set, SortedMap/Set/Vec, UnorderedMap/Set and Vec2 (with panics in retain/sort_by closures, and with the n-th destructor call panicking inside clear / truncate / retain of a Vec2 and inside SmallMap::clear, compared with the same operation on a plain Vec of pairs; and with the n-th clone of a value panicking inside Vec2::clone, SmallMap::clone and Vec2::extend). After every step every lookup by key, by index and by position for every key of the universe is compared with a Vec model; non-trivial = history with >= 1 removal/sort/retain on an indexed map or an injected panic; distinct = digest of the operation list",
             sim_time_unit: "container operations executed (each followed by a full comparison with the model)",
             real_components: vec!["starlark_map::SmallMap / SmallSet / VecMap / Vec2 / OrderedMap / OrderedSet / SortedMap / SortedSet / SortedVec / UnorderedMap / UnorderedSet", "hashbrown index inside SmallMap"],
             stub_components: vec!["key type with simulator-chosen hash and panicking Hash/Eq/Ord", "tracked value type detecting double drops"],
